@@ -301,12 +301,14 @@ def run_case(case, ctx):
             from mofun import Atoms as _Atoms
             cm = np.array(S.cell, float)
             d_hub = float(rng.uniform(1.5, 1.7))
-            for _try in range(60):
+            for _try in range(400):
                 c0 = rng.uniform(0.1, 0.9, 3).dot(cm)
                 dirs = np.array([[1, 1, 1], [1, -1, -1], [-1, 1, -1], [-1, -1, 1]], float)[: int(rng.integers(3, 5))] / np.sqrt(3.0)
                 hub = np.vstack([c0[None, :], c0[None, :] + d_hub * dirs.dot(G.random_rotation(rng).T)])
-                if float(G.equal_mod_lattice(cm, np.asarray(S.positions, float), hub[:, None, :].reshape(-1, 3)[0][None, :]).min()) > 3.6 and \
-                        min(float(G.equal_mod_lattice(cm, np.asarray(S.positions, float), h[None, :]).min()) for h in hub) > 2.0:
+                # (P and F occur nowhere else: the clearance only has to keep atoms apart; it is lowered when the cell is crowded)
+                clear = 3.6 if _try < 60 else 2.2
+                if float(G.equal_mod_lattice(cm, np.asarray(S.positions, float), hub[:, None, :].reshape(-1, 3)[0][None, :]).min()) > clear and \
+                        min(float(G.equal_mod_lattice(cm, np.asarray(S.positions, float), h[None, :]).min()) for h in hub) > min(2.0, clear - 0.4):
                     S.extend(_Atoms(elements=["P"] + ["F"] * (len(hub) - 1), positions=G.wrap(cm, hub)))
                     pat = {"elements": ["P", "F"], "positions": np.array([[0.0, 0.0, 0.0], [d_hub, 0.0, 0.0]]), "cls": "hub_arm", "continuous_symmetry": "line"}
                     st.count("find_only_runs_whose_matches_share_their_first_atom")
